@@ -521,6 +521,21 @@ fn process_tags(
                     .map(crate::verif::err_kind)
                     .unwrap_or(""),
             );
+            let gen_result = match gen_result {
+                Err(err) if err.is_limit_error() => {
+                    // Exceeding a configured limit is final, inside a specs block too.
+                    // Retrying could only 'succeed' from state left behind by the failed
+                    // attempt (e.g. an already-advanced loop counter), silently dropping
+                    // output, and carrying on repeats the work at every nesting level.
+                    return Err(match (err, el) {
+                        (err @ SvgdxError::MultiError(_), _) | (err, None) => err,
+                        (err, Some(el)) => {
+                            SvgdxError::MultiError(HashMap::from([(idx, (el, err))]))
+                        }
+                    });
+                }
+                other => other,
+            };
             if !context.in_specs {
                 // if we *are* in a specs block, we don't care if there were errors;
                 // a specs entry may have insufficient context until reuse time.
@@ -535,16 +550,6 @@ fn process_tags(
                     }
                 } else {
                     if let (Some(el), Err(err)) = (el, gen_result) {
-                        if err.is_limit_error() {
-                            // Exceeding a configured limit is final. Retrying could only
-                            // 'succeed' from state left behind by the failed attempt
-                            // (e.g. an already-advanced loop counter), silently dropping
-                            // output, and repeats the work at every nesting level.
-                            return Err(match err {
-                                SvgdxError::MultiError(_) => err,
-                                _ => SvgdxError::MultiError(HashMap::from([(idx, (el, err))])),
-                            });
-                        }
                         if let SvgdxError::MultiError(err_list) = err {
                             for (idx, (el, err)) in err_list {
                                 element_errors.insert(idx, (el, err));
